@@ -1278,7 +1278,9 @@ fn sgr_face(data: &[u8]) -> FaceModify {
             }
             // bold
             Some(1) => face.bold = Some(true),
-            Some(21) => face.bold = Some(false),
+            // 22 is "normal intensity"; 21 is double underline in ECMA-48/xterm but
+            // was emitted for bold-off by older versions of the encoder
+            Some(21) | Some(22) => face.bold = Some(false),
             // italic
             Some(3) => face.italic = Some(true),
             Some(23) => face.italic = Some(false),
